@@ -95,7 +95,24 @@ def vary(case, rng, k):
         return three_callers(rng)
     if k % 11 == 3:
         return empty_neighbour(rng)
+    if k % 13 == 4:
+        return shared_tail(rng)
     return case
+
+
+def shared_tail(rng):
+    """a leaf function and a function that makes a call share their last block; a patch with a prologue goes into
+    the shared block: whose block it is (and so whether the red zone is stepped over) must not depend on UUIDs"""
+    text = [
+        {"kind": "code", "func": 0, "entry": True, "insns": [["nop"], ["jmp", "S"]], "syms": [{"name": "leaf", "at_end": False}]},
+        {"kind": "code", "func": 1, "entry": True, "insns": [["nop"], ["call", "ext_a"]], "syms": [{"name": "caller", "at_end": False}]},
+        {"kind": "code", "func": 1, "insns": [["nop"]], "syms": [{"name": "c2", "at_end": False}]},
+        {"kind": "code", "func": rng.choice([0, 1]), "insns": [["nop"], ["ret"]], "syms": [{"name": "S", "at_end": False}]},
+    ]
+    other = 1 - text[3]["func"]
+    e = {"op": "insert", "block": 3, "off": rng.choice([0, 1]), "asm": "movl $7, %eax",
+         "constraints": {"flags": True, "clobbers": ["rax"], "scratch": rng.choice([0, 1]), "preserve": False}}
+    return {"isa": "X64", "ff": "ELF", "text": text, "externs": ["ext_a"], "edits": [e], "shared": [[3, other]]}
 
 
 def empty_neighbour(rng):
